@@ -30,4 +30,4 @@ var _ = ocode_client.SpecCtx
 //@ calls[symtab] (*template.Template).Execute : vcSame(arg2, any(p.SymTable))
 //@ ensures[origin] result0 == nil ==> ocode_client.SpecCtx(p.Client).DollarPosition == uint64(p.DollarPos)
 //@ ensures[symtab] result0 == nil ==> vcSame(ocode_client.SpecCtx(p.Client).SymTable, p.SymTable)
-//@ assigns CodeGenContext.DollarPosition, CodeGenContext.SymTable, CodeGenContext.MachineCode, CodeGenContext.VS, VariantStack, ocodeClient.Ocodes, []string
+//@ assigns CodeGenContext.DollarPosition, CodeGenContext.SymTable, CodeGenContext.BitMode, CodeGenContext.MachineCode, CodeGenContext.VS, VariantStack, ocodeClient.Ocodes, []string
